@@ -26,7 +26,7 @@ CFG = {
                                 + [n for n in TIES if n != "tie_dispatch"] + SRC],
     "trusted_base": [
         "Lean 4.33.0 kernel; axioms of every theorem printed by #print axioms must be within {propext, Classical.choice, Quot.sound}",
-        "T1: harness/cmd/c05/extract.go (go/ast, statement-level, subset listed in its header) regenerates lean/GeomV/C05/Gen.lean from "
+        "T1: harness/cmd/c05/extract.go (go/ast, ~1900 lines, statement-level, subset listed in its header) regenerates lean/GeomV/C05/Gen.lean from "
         "encoding/wkb/*.go and encoding/hex/hex.go of the tree under test on every run; Tie.lean proves every regenerated function equal to the "
         "model's (28 tie lemmas; the chunked readPoints by induction) and the theorems are restated for the regenerated Encode/Decode/Read "
         "(C05_*_src). Trusted in T1: the translator and the meaning lean/GeomV/C05/GenLib.lean gives to io.Reader/io.Writer (remaining bytes / bytes "
@@ -85,13 +85,16 @@ def pregen(check):
     if p.returncode not in (0, 3) or not p.stdout.startswith("import"):
         drop("T1 tie: extractor failed: " + p.stderr.strip()[-300:])
         return
-    write(p.stdout)
-    if p.returncode == 3:
-        # Gen.lean now holds, in place of each such function, a declaration that does not elaborate
-        drop("T1 tie: Go function(s) outside the translatable subset, the regenerated Gen.lean does not elaborate: "
-             + " | ".join(p.stderr.strip().splitlines())[:900])
-        return
+    check.c05_gen = p.stdout
+    # Gen.lean lives in the shared lake package: write and pre-build under the build lock, so that a run
+    # against another tree (seeded-change trials) cannot swap the file between the two steps
     with vcheck.Lock("lake"):
+        write(p.stdout)
+        if p.returncode == 3:
+            # Gen.lean now holds, in place of each such function, a declaration that does not elaborate
+            drop("T1 tie: Go function(s) outside the translatable subset, the regenerated Gen.lean does not elaborate: "
+                 + " | ".join(p.stderr.strip().splitlines())[:900])
+            return
         b = subprocess.run(["lake", "build", T + "Tie"], cwd=vcheck.LEAN, stdout=subprocess.PIPE, stderr=subprocess.STDOUT, text=True)
     if b.returncode == 0:
         return
@@ -116,4 +119,16 @@ def pregen(check):
     drop("T1 tie broken: " + "; ".join("%s — the Go function %s no longer denotes the model's function" % (n, TIES.get(n, "(helper lemma)")) for n in bad))
 
 
+def post(check, pairs, stats):
+    """the audited build must have used the Gen.lean of THIS run"""
+    import os
+    import vcheck
+    want = getattr(check, "c05_gen", None)
+    gen = os.path.join(vcheck.LEAN, "GeomV", "C05", "Gen.lean")
+    if want is not None and (not os.path.exists(gen) or open(gen).read() != want):
+        check.broken.append("T1 tie: lean/GeomV/C05/Gen.lean was overwritten during this run by a concurrent run against another tree; "
+                            "the T1 obligations of this run are void — run again")
+
+
+CFG["post"] = post
 CFG["pregen"] = pregen
